@@ -21,6 +21,7 @@ import (
 	"net/url"
 	"os"
 	"path/filepath"
+	"strings"
 	"sync"
 	"testing"
 	"time"
@@ -150,6 +151,33 @@ func TestVerifC12Gate(t *testing.T) {
 			want := ask(c12GNew(t, u, dir, fmt.Sprintf("t%d_%d", round, k)), host)
 			out.Emit(c12GEvent{Ev: "Gate", What: fmt.Sprintf("hashprefix: cached host, then refresh to %q (sequential)", v2),
 				Q: map[string]string{"host": host}, Cached: c12GAbs(late), Plain: c12GAbs(want)})
+		}
+		// a refresh whose text is downloaded completely but cannot be taken over (a line longer than the
+		// scanner's limit after hosts that differ from the previous version): whatever the refresh does to
+		// the list, the filter with the result cache and its twin without one must keep agreeing
+		{
+			host2 := "new-" + host
+			mu.Lock()
+			text = "other.c12.example\n" + host + "\n"
+			mu.Unlock()
+			f := c12GNew(t, u, dir, fmt.Sprintf("b%d", round))
+			twin := c12GNew(t, u, dir, fmt.Sprintf("bt%d", round))
+			twin.resCache = agdcache.Empty[internal.CacheKey, *cacheItem]{}
+			_, _ = ask(f, host), ask(f, host2)
+			_, _ = ask(twin, host), ask(twin, host2)
+			mu.Lock()
+			text = host2 + "\n" + strings.Repeat("x", 70_000) + "\n" + "other.c12.example\n"
+			mu.Unlock()
+			var failed []bool
+			for _, x := range []*Filter{f, twin} {
+				ctx, cancel := context.WithTimeout(context.Background(), 10*time.Second)
+				failed = append(failed, x.Refresh(ctx) != nil)
+				cancel()
+			}
+			for _, h := range []string{host, host2} {
+				out.Emit(c12GEvent{Ev: "Gate", What: fmt.Sprintf("hashprefix: cached hosts, then a refresh to an unusable text (failed: %v)", failed),
+					Q: map[string]string{"host": h}, Cached: c12GAbs(ask(f, h)), Plain: c12GAbs(ask(twin, h))})
+			}
 		}
 		for _, dirn := range []string{"removed", "added"} {
 			with, without := "other.c12.example\n"+host+"\n", "other.c12.example\n"
